@@ -280,6 +280,67 @@ pub fn run_dec_check(ctx: &Ctx, check: &DecCheck) -> Stats {
     if fw::should_stop() {
         return total;
     }
+    // ---- BOM-switch family: a BOM followed by k = 0..=12 units of worst-case payload IN THE BOM'S
+    // encoding (what a sniffing decoder of any nominal encoding becomes), cut before / inside /
+    // after the BOM or not at all - length estimates and space checks for the switched decoder
+    if check.bom_prefixes && check.modes.iter().any(|m| *m != BomMode::None) {
+        let st = par_run(ctx, n_enc * 3, |part, st| {
+            let enc = check.encs[part / 3];
+            let which = part % 3;
+            let (bom, payloads): (&[u8], Vec<Vec<u8>>) = match which {
+                0 => (b"\xEF\xBB\xBF", vec![b"a".to_vec(), "\u{E9}".as_bytes().to_vec(), "\u{4E2D}".as_bytes().to_vec(), "\u{1F600}".as_bytes().to_vec(), vec![0xFF], vec![0xE4, 0xB8]]),
+                1 => (b"\xFF\xFE", vec![vec![0x61, 0x00], vec![0xFF, 0x07], vec![0x00, 0x08], vec![0xFF, 0xFF], vec![0x3D, 0xD8, 0x00, 0xDE], vec![0x00, 0xD8], vec![0x00, 0xDC]]),
+                _ => (b"\xFE\xFF", vec![vec![0x00, 0x61], vec![0x07, 0xFF], vec![0x08, 0x00], vec![0xFF, 0xFF], vec![0xD8, 0x3D, 0xDE, 0x00], vec![0xD8, 0x00], vec![0xDC, 0x00]]),
+            };
+            let mut sc = Scratch::new();
+            for p in &payloads {
+                for k in 0..=12usize {
+                    if fw::should_stop() {
+                        return;
+                    }
+                    for odd in [false, true] {
+                        let mut stream = bom.to_vec();
+                        for _ in 0..k {
+                            stream.extend_from_slice(p);
+                        }
+                        if odd {
+                            // a trailing partial unit / lead byte
+                            stream.push(p[0]);
+                        }
+                        for &mode in &check.modes {
+                            if mode == BomMode::None {
+                                continue;
+                            }
+                            for &sink in &check.sinks {
+                                for &repl in &check.repls {
+                                    for caps in (check.cap_patterns)(sink).into_iter().take(3) {
+                                        for cuts in [vec![], vec![1], vec![bom.len()], vec![bom.len() + 1], vec![0, 2]] {
+                                            let h = DecHistory { enc, mode, sink, repl, stream: stream.clone(), cuts, last_on_empty: k & 1 == 1, caps: caps.clone(), fill: check.fills[k % check.fills.len()], align: k & 15, sinks_per_call: vec![], repls_per_call: vec![] };
+                                            st.evals += 1;
+                                            st.class("BOM-then-payload-in-the-BOM's-encoding");
+                                            if let Some((msg, sig)) = (check.verdict)(&h, &mut sc, st, true) {
+                                                if let Some(id) = fw::known_open_id(&sig) {
+                                                    st.known_hit(id);
+                                                } else {
+                                                    st.violations.push(violation_for(&h, check, msg, sig));
+                                                    return;
+                                                }
+                                            }
+                                        }
+                                    }
+                                }
+                            }
+                        }
+                    }
+                }
+            }
+        });
+        total.merge(st);
+        total.exhaustive.push("BOM-switch family: each of the three BOMs + 0..=12 copies of each worst-case unit of the BOM's encoding (+ optional trailing partial unit) x sniff/remove modes x sinks x replacement x first three capacity patterns x cuts {none, inside, after, after+1, empty+inside}".into());
+        if fw::should_stop() {
+            return total;
+        }
+    }
     // ---- block-boundary family: a long ASCII run ending 0..=4 units before a power-of-two offset,
     // then one atom (a sequence straddling the end of an internal block), then a short tail
     let thorough = ctx.tier == fw::Tier::Thorough;
@@ -315,7 +376,6 @@ pub fn run_dec_check(ctx: &Ctx, check: &DecCheck) -> Stats {
                         for caps in [vec![], vec![block / 2 + 3], vec![block + 1]] {
                             let h = DecHistory { enc, mode: check.modes[0], sink, repl, stream: stream.clone(), cuts: vec![], last_on_empty: j & 1 == 1, caps, fill: check.fills[j % check.fills.len()], align: j, sinks_per_call: vec![], repls_per_call: vec![] };
                             st.evals += 1;
-                            st.nontrivial_distinct();
                             st.class("sequence-straddling-a-power-of-two-offset");
                             if let Some((msg, sig)) = (check.verdict)(&h, &mut sc, st, true) {
                                 if let Some(id) = fw::known_open_id(&sig) {
